@@ -219,7 +219,7 @@ def select(pid, lines, total, seed, horizon, limit_end=None):
 
 def _run(pid, binp, inp, out, trace, par, budget, horizon, timeout):
     rc, txt = vlib.go_run_test(binp, "TestReplay$", ["-in", inp, "-out", out, "-trace", trace, "-par", str(par), "-budget", str(budget),
-                                                    "-horizon", str(horizon)], timeout=timeout)
+                                                    "-horizon", str(horizon), "-persistwait=%s" % ("true" if pid == "C11" else "false")], timeout=timeout)
     if rc != 0 or not os.path.exists(out):
         # a stop of the test binary is never a verdict here (global timeout, harness trouble)
         raise vlib.Inconclusive("whole-program harness did not finish (rc %s):\n%s" % (rc, txt[-2500:]))
